@@ -345,26 +345,26 @@ for _pid, _p in PROPS.items():
 # What was added to each monitor after the seeded-change campaign (DESIGN.md section 13); appended to
 # the level text so that MANIFEST.json describes the checks as they are now.
 _ADDED = {
-    "C01": "Also: every numeric literal of dasp_sample's sources (with neighbours and re-based twins) as input; the to_signed_sample route for the six unsigned formats; a third build with debug assertions off and overflow checks on.",
-    "C02": "Also: inputs on and next to every rounding boundary of the target float format (where correct rounding differs from truncation and from rounding twice; ties plus or minus 2^k for every lower bit position k), source literals as inputs, the to_float_sample route; a third build with debug assertions off and overflow checks on.",
-    "C03": "Also: subnormal / negative-zero / MIN_POSITIVE samples and tiny gains; iterator-protocol conformance (nth, fold, count, last, skip, step_by, size_hint, len, next_back, rev vs plain next) of channels / channels_ref / channels_mut for a hand-picked set of (format, N); frames with repeated channel values (all equal, all equal but one, alternating) through every per-channel law; frames of 33 / 64 / 65 / 100 channels and the 32/64-bit integer formats at a few widths; uniform gain / offset frames (all 1.0, 0.0, 0.5, -1.0; all zero) on full-range values, outcomes compared including panics; a build with debug assertions off and overflow checks on.",
-    "C04": "Also: delays of 2^32, 2^32+1 and usize::MAX frames; eleven adaptor kinds each driven for 2^32+4096 frames (frame-by-frame comparison, source pull counts at the end); all 81 ordered pairs of the nine unary adaptors as CONCRETE types, the inner one pulled 0/1/3 times and then moved by value into the outer one; a 40-channel frame type in the tree machinery; clone / clone_from of delays mid-silence.",
-    "C05": "Also: huge delays; take(n) for n around every integer-width boundary (len/size_hint count down from n); iterator-protocol conformance of the interleaved-sample iterator, take and until_exhausted over every tree; a 40-channel frame type; interleaved output of frames with 33, 300 and 65 537 channels; clone / clone_from of iterator-backed signals.",
+    "C01": "Also: every numeric literal of dasp_sample's sources (with neighbours and re-based twins) as input; the to_signed_sample route for the six unsigned formats; a third build with debug assertions off and overflow checks on and a fourth for the host CPU (-C target-cpu=native).",
+    "C02": "Also: inputs on and next to every rounding boundary of the target float format (where correct rounding differs from truncation and from rounding twice; ties plus or minus 2^k for every lower bit position k), source literals as inputs, the to_float_sample route; a third build with debug assertions off and overflow checks on and a fourth for the host CPU (-C target-cpu=native: fma, avx2).",
+    "C03": "Also: subnormal / negative-zero / MIN_POSITIVE samples and tiny gains; iterator-protocol conformance (nth, fold, count, last, skip, step_by, size_hint, len, next_back, rev vs plain next) of channels / channels_ref / channels_mut for a hand-picked set of (format, N); frames with repeated channel values (all equal, all equal but one, alternating) through every per-channel law; frames of 33 / 64 / 65 / 100 channels and the 32/64-bit integer formats at a few widths; uniform gain / offset frames (all 1.0, 0.0, 0.5, -1.0; all zero) on full-range values, outcomes compared including panics; a build with debug assertions off and overflow checks on and one for the host CPU (-C target-cpu=native).",
+    "C04": "Also: delays of 2^32, 2^32+1 and usize::MAX frames; eleven adaptor kinds each driven for 2^32+4096 frames (frame-by-frame comparison, source pull counts at the end); all 81 ordered pairs of the nine unary adaptors as CONCRETE types, the inner one pulled 0/1/3 times and then moved by value into the outer one; a 40-channel frame type in the tree machinery; clone / clone_from of delays mid-silence; every adaptor over frames of a user-defined sign-magnitude sample format, compared with the same adaptor over i8 frames of the same amplitudes.",
+    "C05": "Also: huge delays; take(n) for n around every integer-width boundary (len/size_hint count down from n); iterator-protocol conformance of the interleaved-sample iterator, take and until_exhausted over every tree; a 40-channel frame type; interleaved output of frames with 33, 300 and 65 537 channels; clone / clone_from of iterator-backed signals; a bus output that is the sole survivor with the whole source still queued, read through until_exhausted, into_interleaved_samples and an is_exhausted loop.",
     "C06": "Also: indices and set_first arguments around every integer-width boundary; ring buffers over calloc-backed storage of 2^32+r, 2^31+5, 3*2^30+1 and 2^32-1 elements (sparse model, rotated starts); Extend through iterators with exact, absent and loose size hints; iterator-protocol conformance of iter() and drain() from every small state.",
-    "C07": "Also: a Sum node with 300 / 1 500 / 5 000 / 70 000 incoming edges in steady state, and alternating with a sink of fan-in 2 on the same graph; a processor and its graph (BoxedNodeSend) warmed up on one thread and rendered on another; a bus output dropped while its thread unwinds from a caught panic.",
-    "C08": "Also: the content of every output while the ratio swings between < 1 and > 1, and panic guards that turn a panic inside the converter into a violation instead of a dead stage; exhaustion reporting over a source whose own exhaustion is not sticky (a queue fed again later), dyadic ratios.",
+    "C07": "Also: a Sum node with 300 / 1 500 / 5 000 / 70 000 incoming edges in steady state, and alternating with a sink of fan-in 2 on the same graph; a processor and its graph (BoxedNodeSend) warmed up on one thread and rendered on another; constructors, comparison and the + - * operators of all eight custom-width types; a bus output dropped while its thread unwinds from a caught panic.",
+    "C08": "Also: the content of every output while the ratio swings between < 1 and > 1, and panic guards that turn a panic inside the converter into a violation instead of a dead stage; exhaustion reporting over a source whose own exhaustion is not sticky (a queue fed again later), dyadic ratios; ratio 1 requested as equal rates (from_hz_to_hz(r, r), set_hz_to_hz(r, r) mid-stream) for dozens of rates over thousands of frames.",
     "C09": "Also: one node fed by 257 ... 4 097 (thorough 70 000) different nodes through a processor created with a small capacity; a probe node that panics inside process, then a fully checked call on the same processor; the graph re-patched (one edge moved, in-degrees unchanged) between two calls with the same processor and output node, and patched back.",
     "C10": "Also: views over i8 buffers of 2^32+d samples (calloc-backed) for ten widths, shared / mutable / boxed; zip_map_in_place between frame types of different channel counts; long slices whose source has aligned runs of exactly silent frames; float destinations numerically equal to the result beforehand but with flipped zero signs, compared bit for bit.",
     "C11": "Also: the zeroed window is handed over at a rotation derived from the case (Fixed::from_raw_parts(k, ..)); clone() / clone_from() mid-stream against the original and a never-copied replay; a stereo detector one channel of which is fed samples whose squares overflow, the other compared bit for bit with a mono detector.",
     "C12": "Also: a fork over a ring buffer of 2^32+r frames with leads up to 190; the ring starts at a non-zero offset; by_rc with either handle dropped at every point of every schedule of length 10; Fork::clone / clone_from mid-stream (state-copy conformance); a zero-sized source type whose state lives in a thread-local.",
     "C13": "Also: every sequence containing a drop is run a second time with each drop happening while the thread unwinds from a caught panic; deep-backlog histories (leads of 2 100 ... 6 100 frames, partial catch-ups, the slowest of three dropped); 2^20 (thorough: 2^32 + 1024) attach/detach cycles on one bus with two early outputs alive and lagging.",
     "C14": "Also: batch-only histories first (they cannot hang); iterator-protocol conformance of next_frames() from every (capacity, start, prefill, lead) state; a source over a live queue that is fed again after Buffered ran dry.",
-    "C15": "Also: source literals as operands; operands solved for so that the exact product / sum / difference is congruent to a range boundary modulo 2^BITS, any number of periods away; a third build with debug assertions off and overflow checks on (where the ninth defect, Mul trapping instead of wrapping, was found and fixed).",
+    "C15": "Also: source literals as operands; operands solved for so that the exact product / sum / difference is congruent to a range boundary modulo 2^BITS, any number of periods away; a third build with debug assertions off and overflow checks on (where the ninth defect, Mul trapping instead of wrapping, was found and fixed) and a fourth for the host CPU.",
     "C16": "Also: signal nodes whose signal is a chain of real adaptors over a finite source (exhaustion hint set while frames are still non-zero), compared with an identical twin stepped directly; delay rings handed over rotated; nested graphs with a stateful inner source whose inner state (public field) is compared with a directly processed twin for every outer buffer count, zero included; a nested graph whose designated input node is also fed from inside the inner graph and keeps a surplus buffer.",
-    "C17": "Also: white noise over 2^31 (thorough 2^35) consecutive (seed + frame) values per run, extremes reported; frequency signals that are the sum of two finite signals (hint set, frames non-zero); frequencies gliding by one ulp per frame or wobbling between two neighbours, and every ordered pair of frequencies within two ulps of the rate, of half and of twice the rate, from phase 0; clone / clone_from of oscillators and noise.",
-    "C18": "Also: zeroed rings handed over rotated; reset while still priming, with zeroed and with dirty rings; the constant-input clause at the 64 doubles below 1 and on geometric approaches to 0, 1/2 and 1; superposition with operands that are constant over the whole buffer.",
-    "C19": "Also: attack/release times of -0.0, subnormal, MIN_POSITIVE, 1e30 and f32::MAX; loud / quiet / exact-silence / quiet patterns with a 2^15 level ratio; RMS windows handed over rotated; attack and release gliding by one ulp before every frame.",
-    "C20": "Also: hops around every integer-width boundary; each (L, bin, hop) state also reached by assigning the public fields after construction; iterator-protocol conformance of Window, Windower and the chunk iterator; bin/hop reassigned after a first chunk was pulled under other settings; slices of zero-sized frames with L up to usize::MAX and hops of 2^58 and more.",
+    "C17": "Also: white noise over 2^31 (thorough 2^35) consecutive (seed + frame) values per run, extremes reported; frequency signals that are the sum of two finite signals (hint set, frames non-zero); frequencies gliding by one ulp per frame or wobbling between two neighbours, and every ordered pair of frequencies within two ulps of the rate, of half and of twice the rate, from phase 0; clone / clone_from of constant- and variable-frequency oscillators and noise, the clone_from destination built with a different sample rate, frequency and control signal.",
+    "C18": "Also: zeroed rings handed over rotated; reset while still priming, with zeroed and with dirty rings; the constant-input clause at the 64 doubles below 1 and on geometric approaches to 0, 1/2 and 1; superposition with operands that are constant over the whole buffer; 6 000-frame runs at ratio 1 through scale_hz(1.0), from_hz_to_hz(r, r) and set_hz_to_hz(r, r) for eight rates.",
+    "C19": "Also: attack/release times of -0.0, subnormal, MIN_POSITIVE, 1e30 and f32::MAX; loud / quiet / exact-silence / quiet patterns with a 2^15 level ratio; RMS windows handed over rotated; attack and release gliding by one ulp before every frame; detectors constructed and re-parameterised on all cores at once with times from a small pool (each must use the gains of its own times).",
+    "C20": "Also: hops around every integer-width boundary; each (L, bin, hop) state also reached by assigning the public fields after construction; iterator-protocol conformance of Window, Windower and the chunk iterator; bin/hop reassigned after a first chunk was pulled under other settings; slices of zero-sized frames with L up to usize::MAX and hops of 2^58 and more; one chunk of 2^24+1 / 2^24+3 frames compared bit for bit with the standalone window of the same length.",
 }
 _ALL = ("Every property additionally runs its main workload on a stock release build (assertions and overflow checks off). "
         "Violations are written to a side-car file as they are observed, so a stage that later hangs or crashes still delivers them.")
